@@ -7,7 +7,7 @@ package clone
 // verif:bound C10 enzymes BsaI, BbsI, BtgZI and a custom non-palindromic 3-letter site (GAC, skip 1, overhang 2); 0..2 (quick) / 0..3 (thorough) recognition sites in either orientation; gaps between consecutive cuts from {minimum allowed, minimum+1 / +3}; linear parts with 0..(skip+overhang+2) bases before the first / after the last site; circular parts at EVERY rotation offset of the stored sequence
 // verif:bound C10 filler bases symbolic over {A,T,a,t} (no accidental site can arise; site letters upper or lower case): one path decides a layout for every filler
 // verif:assume C10 precondition (the property's restriction made precise): recognition-site occurrences and overhang windows are pairwise disjoint and consecutive cuts are at least two overhang lengths apart (cyclically for circular parts)
-// verif:bound C10 two-digest clause: two parts (linear or circular; the first with 2 sites, the second with 0..1 (quick) / 0..2 (thorough) sites, orientations symbolic choices, fixed gaps, symbolic filler) digested one after the other with the same enzyme: each answer follows its own part's geometry
+// verif:bound C10 two-digest clause: two parts (linear or circular; the first with 2 or 4 sites (equal gaps: two released fragments may have the same text), the second with 0..1 (quick) / 0..2 (thorough) sites, orientations symbolic choices, fixed gaps, symbolic filler) digested one after the other with the same enzyme: each answer follows its own part's geometry
 // verif:bound C10 outside the claim: more than 3 sites, sequences longer than ~80 bases, filler containing G/C (accidental sites), non-directional digestion
 
 import "regexp"
@@ -276,7 +276,7 @@ func Harness_C10_Circular() {
 func Harness_C10_TwoDigests() {
 	e := c10Enzymes[vChoice(vTier(2, 4))]
 	circ1, circ2 := vChoice(2) == 1, vChoice(2) == 1
-	seq1, sites1 := c10FixedLayout(e, circ1, 2)
+	seq1, sites1 := c10FixedLayout(e, circ1, 2+2*vChoice(2)) // 4 sites: two released fragments may be identical in text
 	seq2, sites2 := c10FixedLayout(e, circ2, vChoice(vTier(2, 3)))
 	got1, p1 := c10Cut(Part{seq1, circ1}, e)
 	got2, p2 := c10Cut(Part{seq2, circ2}, e)
